@@ -127,6 +127,27 @@ pub fn run_c05(p: &mut Prng, t: Tier, i: usize, sink: &mut Sink) {
         sink.done(w);
         return;
     }
+    if (3 + INTEROP..3 + INTEROP + 20).contains(&i) {
+        // two encryptors with different keys on two caller threads, interleaved at the RNG seam
+        let (la, lb) = (p.range(1, 80), p.range(1, 80));
+        let (ma, mb) = (msg_of_len(p, la), msg_of_len(p, lb));
+        let (order, comp) = (*p.pick(&ORDERS), p.chance(1, 2));
+        let mut ops_a = base_ops(p, "pa", &ma, order, comp, "lib");
+        let mut ops_b = base_ops(p, "pb", &mb, order, comp, "lib");
+        let (ea, eb) = (ops_a.pop().unwrap(), ops_b.pop().unwrap());
+        for op in ops_a.into_iter().chain(ops_b) {
+            w.exec(op);
+        }
+        w.exec(par(ea, eb, &par_order(p)));
+        for pfx in ["pa", "pb"] {
+            if w.slots.contains_key(&format!("{pfx}.ct")) {
+                w.exec(dec_op(pfx, order, comp));
+                w.exec(json!({"op":"assert.eq","a":format!("{pfx}.pt"),"b":format!("{pfx}.msg"),"property":"C05","oracle":"O5.1-round-trip","entry":"sm2.encrypt+decrypt","class":"round-trip","what":"decrypt(encrypt(M)) != M"}));
+            }
+        }
+        sink.done(w);
+        return;
+    }
     let nsess = p.range(1, 3);
     let mut queues = vec![];
     for k in 0..nsess {
